@@ -91,7 +91,7 @@ Fixpoint run_rules (rules:list (list atom * tout)) (d:disk) : tout :=
 Definition enc_content (c:content) : list Z := Z.of_nat (length c) :: map Z.of_N c.
 Definition enc_disk (d:disk) : list Z := Z.of_nat (length d) :: flat_map enc_content d.
 Definition enc_exit (e:fexit) : Z :=
-  match e with FNormal => 0 | FPassBug => 1 | FAssert => 2 | FZero => 3 | FInsane => 4 | FFuel => 99 end%Z.
+  match e with FNormal => 0 | FPassBug => 1 | FAssert => 2 | FZero => 3 | FInsane => 4 | FFuel => (-99) end%Z.
 
 Record scenario := mksc {
   sc_rc : rcfg; sc_rules : list (list atom * tout);
